@@ -6,6 +6,7 @@ import (
 	"go/types"
 	"sort"
 	"strings"
+	"sync"
 
 	"golang.org/x/tools/go/ssa"
 )
@@ -23,6 +24,49 @@ type FuncResult struct {
 	Params  []ModelVar
 	AutoInv  int
 	AutoInvs []string
+	IntMode  bool
+}
+
+// generateAll generates the obligations of functions and lemmas: first all bit-vector-mode items,
+// then (with the global integer mode switched) all int-mode items.
+func (e *Env) generateAll(fns []*ssa.Function, lems []*Lemma, extraKinds []string) []*FuncResult {
+	results := make([]*FuncResult, len(fns)+len(lems))
+	for pass := 0; pass < 2; pass++ {
+		intPass := pass == 1
+		setIntMode(intPass)
+		var wg sync.WaitGroup
+		sem := make(chan bool, 8)
+		for i, f := range fns {
+			c := e.contractOf(f)
+			if (c != nil && c.IntMode) != intPass {
+				continue
+			}
+			wg.Add(1)
+			go func(i int, f *ssa.Function) {
+				defer wg.Done()
+				sem <- true
+				results[i] = e.verifyFunc(f, extraKinds)
+				results[i].IntMode = intPass
+				<-sem
+			}(i, f)
+		}
+		for j, lm := range lems {
+			if lm.IntMode != intPass {
+				continue
+			}
+			wg.Add(1)
+			go func(j int, lm *Lemma) {
+				defer wg.Done()
+				sem <- true
+				results[len(fns)+j] = e.verifyLemma(lm)
+				results[len(fns)+j].IntMode = intPass
+				<-sem
+			}(j, lm)
+		}
+		wg.Wait()
+	}
+	setIntMode(false)
+	return results
 }
 
 func shortText(s string) string {
@@ -71,7 +115,7 @@ func (e *Env) verifyFuncWith(fn *ssa.Function, extraKinds []string, auto map[*ss
 	ft.entryMem = mem.clone()
 	fr.oldMem = ft.entryMem
 	for _, p := range fn.Params {
-		v := ft.freshVal("p$"+p.Name(), p.Type())
+		v := ft.freshInput("p$"+p.Name(), p.Type())
 		fr.vals[p] = v
 		fr.args = append(fr.args, v)
 		for i, l := range leavesOf(p.Type()) {
@@ -346,7 +390,7 @@ func (fr *frame) callByContract(con *Contract, callee *ssa.Function, c *ssa.Call
 		}
 		fr.applyAssigns(items)
 		for i := 0; i < rs.Len(); i++ {
-			r := ft.freshVal(fmt.Sprintf("r$%s$%d", callee.Name(), i), rs.At(i).Type())
+			r := ft.freshInput(fmt.Sprintf("r$%s$%d", callee.Name(), i), rs.At(i).Type())
 			results = append(results, r)
 		}
 		// result-based items: the result designates memory allocated by the callee
@@ -376,7 +420,7 @@ func (fr *frame) callByContract(con *Contract, callee *ssa.Function, c *ssa.Call
 	} else {
 		fr.havocCall(c)
 		for i := 0; i < rs.Len(); i++ {
-			results = append(results, ft.freshVal(fmt.Sprintf("r$%s$%d", callee.Name(), i), rs.At(i).Type()))
+			results = append(results, ft.freshInput(fmt.Sprintf("r$%s$%d", callee.Name(), i), rs.At(i).Type()))
 		}
 	}
 	sc := fr.postScope(callee, con, results, fr.cur.mem, pre, args)
